@@ -21,6 +21,7 @@ type ctrlClient struct {
 	ctrl  string
 	fixed *Task // cli: the one task using this client
 	dead  atomic.Bool
+	direct bool // executes at once (differential test of the stub)
 }
 
 var _ client.Client = (*ctrlClient)(nil)
@@ -35,6 +36,12 @@ func (c *ctrlClient) task() *Task {
 }
 
 func (c *ctrlClient) do(call *Call) error {
+	if c.direct {
+		// stub-fidelity test: no gate, no task
+		call.Task = &Task{Ctrl: "direct"}
+		c.sim.exec(call)
+		return call.Err
+	}
 	if c.dead.Load() {
 		return errCrashed
 	}
